@@ -232,7 +232,15 @@ impl<R: Read + Seek> Mp4Reader<R> {
     }
 
     pub fn duration(&self) -> Duration {
-        Duration::from_millis(self.moov.mvhd.duration * 1000 / self.moov.mvhd.timescale as u64)
+        if self.moov.mvhd.timescale == 0 {
+            return Duration::from_millis(0);
+        }
+        let millis = self.moov.mvhd.duration as u128 * 1000 / self.moov.mvhd.timescale as u128;
+        Duration::from_millis(if millis > u64::MAX as u128 {
+            u64::MAX
+        } else {
+            millis as u64
+        })
     }
 
     pub fn timescale(&self) -> u32 {
